@@ -25,6 +25,11 @@ SetVerdict(L, bad) ==      \* L: sequence of distinct-or-not region ids
     ELSE IF \A i \in 1..(Len(L) - 1) : Lo(L[i]) < Lo(L[i + 1]) THEN "must_ok"
     ELSE "open"                                   \* a legal but unsorted table
 AddVerdict(T, r, bad) == IF bad \/ \E x \in T : Overlap(x, r) THEN "must_fail" ELSE "must_ok"
+\* A region whose user (frontend virtual) range ends exactly at 2^64 -- its last byte is the last byte of the address space --
+\* is a legal geometry ("user ranges anywhere in 64-bit space"); the pinned code refuses it (its end is not representable),
+\* which the statement permits because only the regions of successful operations make up the table.  Acceptance is therefore
+\* left open for such a region, and an accepted one is translated and probed like any other.
+TopOpen(v, top) == IF v = "must_ok" /\ top THEN "open" ELSE v
 SameRange(a, b) == Lo(a) = Lo(b) /\ Hi(a) = Hi(b)
 \* removing a region that is not in the table but has exactly the guest range of one that is (other user
 \* address / file): the statement does not say which fields identify a region -- left open
